@@ -279,6 +279,68 @@ def h_immutable_api(ca, n):
     return h
 
 
+# ------------------------------------------------------------------ independently built twins (same constructor arguments)
+def _ctors():
+    """name -> function(cls) -> object built from concrete arguments (so that any memoisation keyed on them is hit)"""
+    import bitstring
+    B = bitstring
+
+    def prop(name, value, **kw):
+        def f(cls):
+            M = cls if is_mutable(cls) else B.BitArray
+            o = M(**kw) if kw else M()
+            set_attr(o, name, value)
+            return o if M is cls else cls(o)
+        return f
+    C = {
+        'ue=3': lambda c: c(ue=3), 'se=-2': lambda c: c(se=-2), 'uie=5': lambda c: c(uie=5), 'sie=-1': lambda c: c(sie=-1),
+        'uint=5,length=4': lambda c: c(uint=5, length=4), 'int=-3,length=4': lambda c: c(int=-3, length=4), 'float=1.5,length=32': lambda c: c(float=1.5, length=32),
+        'hex=5a': lambda c: c(hex='5a'), 'bin=0110': lambda c: c(bin='0110'), 'oct=17': lambda c: c(oct='17'), 'bytes=Z': lambda c: c(bytes=b'Z'), 'bool=True': lambda c: c(bool=True),
+        'bfloat=1.5': lambda c: c(bfloat=1.5), 'uintle=258,length=16': lambda c: c(uintle=258, length=16), 'e4m3mxfp=1.5': lambda c: c(e4m3mxfp=1.5), 'p4binary=1.5': lambda c: c(p4binary=1.5),
+        'int-zeros(4)': lambda c: c(4), "str 'ue=3'": lambda c: c('ue=3'), "str 'uint:8=90'": lambda c: c('uint:8=90'), "str '0x5a, ue=3'": lambda c: c('0x5a, ue=3'),
+        "fromstring 'se=-2'": lambda c: c.fromstring('se=-2'), "pack('ue', 3)": lambda c: c(B.pack('ue', 3)), "pack('uint:8', 90)": lambda c: c(B.pack('uint:8', 90)),
+        "pack('ue=3')": lambda c: c(B.pack('ue=3')), "Dtype('ue').build(3)": lambda c: c(B.Dtype('ue').build(3)), "Dtype('uint8').build(90)": lambda c: c(B.Dtype('uint8').build(90)),
+        "Dtype('hex2').build('5a')": lambda c: c(B.Dtype('hex2').build('5a')),
+        'prop ue=3': prop('ue', 3), 'prop uie=5': prop('uie', 5), 'prop se=-2': prop('se', -2), 'prop uint=5 (4 bits)': prop('uint', 5, length=4), 'prop hex=5a': prop('hex', '5a'),
+        'prop float=1.5 (32 bits)': prop('float', 1.5, length=32), 'prop bytes': prop('bytes', b'Z'),
+        "Array('uint8', [90]).data": lambda c: c(B.Array('uint8', [90]).data), 'bytes-auto': lambda c: c(b'Z'), 'bool-list': lambda c: c([1, 0, 1]),
+    }
+    return C
+
+
+def h_twins(ctor):
+    """two objects built independently from the same arguments (possibly of different classes) are independent; a third built afterwards sees the original value"""
+    def h(K):
+        env.clear_caches()
+        make = _ctors()[ctor]
+        ca, cb = K.choice('classes', [(a, b) for a in CLS for b in CLS if a in ('BitArray', 'BitStream') or b in ('BitArray', 'BitStream')])
+        mname = K.choice('mutation', ['invert', 'append', 'setitem', 'clear', 'overwrite'])
+        CA, CB = classes()[ca], classes()[cb]
+        ra, rb = call(lambda: make(CA)), call(lambda: make(CB))
+        if not (ra.ok and rb.ok):
+            return True if (ra.ok == rb.ok) else K.fail('constructor works for one class and not for the other', ctor=ctor, a=ra.excname, b=rb.excname)
+        A, Bo = ra.value, rb.value
+        a0, b0 = _content(A), _content(Bo)
+        if not K.check(same(a0, b0), 'the same arguments give different bits for two classes', ctor=ctor):
+            return False
+        if is_mutable(CA):
+            m = call(lambda: _mutate(K, A, mname))
+            if m.ok and not K.check(same(_content(Bo), b0), 'mutating one object changed another that was built independently from the same arguments', ctor=ctor, mutated=ca, other=cb,
+                                    mutation=mname, before=b0, after=_content(Bo)):
+                return False
+        a1 = _content(A)
+        if is_mutable(CB):
+            m = call(lambda: _mutate(K, Bo, mname))
+            if m.ok and not K.check(same(_content(A), a1), 'mutating one object changed another that was built independently from the same arguments', ctor=ctor, mutated=cb, other=ca,
+                                    mutation=mname, before=a1, after=_content(A)):
+                return False
+        import bitstring
+        fresh = call(lambda: make(bitstring.Bits))
+        return K.check(fresh.ok and same(_content(fresh.value), a0), 'an object built later from the same arguments no longer has the original value (a shared cached value was mutated)',
+                       ctor=ctor, mutation=mname, got=_content(fresh.value) if fresh.ok else None, expected=a0)
+    return h
+
+
 def conditions(tier):
     q = tier == 'quick'
     conds = []
@@ -309,7 +371,16 @@ def conditions(tier):
             add(f'C04.tobitarray[{ca},{source}]', h_tobitarray(ca, N, source), f'all {N}-bit contents / cached string; mutate the bitarray, then the bitstring', source=source)
         for kind in ('bitarray', 'bytearray', 'memoryview', 'bytes-kw', 'array'):
             add(f'C04.buffer-source[{ca},{kind}]', h_buffer_source(ca, kind, N), 'source buffer mutated after construction')
+    for ctor in _ctors_names():
+        add(f'C04.twins[{ctor}]', h_twins(ctor), 'concrete constructor arguments; all ordered class pairs with a mutable side x 5 mutations; live caches', ctor=ctor)
     for ca in ('Bits', 'ConstBitStream'):
         for n in ([N] if q else [0, 1, N, 8]):
             add(f'C04.immutable-api[{ca},n={n}]', h_immutable_api(ca, n), f'all {n}-bit contents; every public method once')
     return conds
+
+
+def _ctors_names():
+    return ['ue=3', 'se=-2', 'uie=5', 'sie=-1', 'uint=5,length=4', 'int=-3,length=4', 'float=1.5,length=32', 'hex=5a', 'bin=0110', 'oct=17', 'bytes=Z', 'bool=True', 'bfloat=1.5',
+            'uintle=258,length=16', 'e4m3mxfp=1.5', 'p4binary=1.5', 'int-zeros(4)', "str 'ue=3'", "str 'uint:8=90'", "str '0x5a, ue=3'", "fromstring 'se=-2'", "pack('ue', 3)",
+            "pack('uint:8', 90)", "pack('ue=3')", "Dtype('ue').build(3)", "Dtype('uint8').build(90)", "Dtype('hex2').build('5a')", 'prop ue=3', 'prop uie=5', 'prop se=-2',
+            'prop uint=5 (4 bits)', 'prop hex=5a', 'prop float=1.5 (32 bits)', 'prop bytes', "Array('uint8', [90]).data", 'bytes-auto', 'bool-list']
